@@ -217,3 +217,24 @@ func Container(root *resolve.FetchTreeNode, originals []int, equal func(absent, 
 	}
 	return out
 }
+
+// PathTwins reports whether two fetches of the tree work on the same response path (paths
+// compared without type conditions): such fetches see each other's merged items.
+func PathTwins(root *resolve.FetchTreeNode) bool {
+	leaves, _, _ := Leaves(root)
+	seen := map[string]bool{}
+	for _, l := range leaves {
+		var sb strings.Builder
+		for _, pe := range l.Item.FetchPath {
+			sb.WriteString(strings.Join(pe.Path, ".") + "/")
+		}
+		if len(l.Item.FetchPath) == 0 {
+			continue
+		}
+		if seen[sb.String()] {
+			return true
+		}
+		seen[sb.String()] = true
+	}
+	return false
+}
